@@ -1447,3 +1447,45 @@ def scoped_call(lin, pattern):
                 if k in copies and copies[k] < i:
                     return i, k
     return -1, None
+
+
+# ---------------------------------------------------------------------------
+# word tables
+
+
+def glued_words(repo, modules=None):
+    """Elements of a list / tuple / set display of words (string constants
+    without white space) that are written as two or more adjacent string
+    literals: a lost comma glues two entries into one.
+    -> (number of word tables seen, [(module, lineno, text)])"""
+    import io
+    import tokenize
+    out = []
+    n_tables = 0
+    for m in repo.modules.values():
+        if modules is not None and m.name not in modules:
+            continue
+        for n in ast.walk(m.tree):
+            if not isinstance(n, (ast.List, ast.Tuple, ast.Set)):
+                continue
+            elts = n.elts
+            if len(elts) < 2 or not all(
+                    isinstance(e, ast.Constant) and isinstance(e.value, str)
+                    and e.value and not any(c.isspace() for c in e.value)
+                    for e in elts):
+                continue
+            n_tables += 1
+            for e in elts:
+                seg = ast.get_source_segment(m.source, e)
+                if not seg:
+                    continue
+                try:
+                    toks = [t for t in tokenize.generate_tokens(
+                        io.StringIO("(" + seg + ")").readline)
+                        if t.type == tokenize.STRING]
+                except (tokenize.TokenError, SyntaxError):
+                    continue
+                if len(toks) > 1:
+                    out.append((m, e.lineno, " ".join(t.string
+                                                      for t in toks)))
+    return n_tables, out
